@@ -168,6 +168,8 @@ class Binding:
                                 cause = "trailing-newline"
                             elif f == "annotation" and ev is None and prev is not None and av == prev:
                                 cause = "previous-item-annotation"
+                            elif f == "annotation" and ev is not None and av is not None and av == ei.get("sig_annotation"):
+                                cause = "signature-over-written-" + ei.get("type_pos", "type")
                             out.append((kind, cause, f"section {j} ({kind}) item {m} {f} {ai[f]!r} != written {ei[f]!r}"))
                     prev = None if ai["annotation"] is None else squash(ai["annotation"])
         return out
@@ -334,6 +336,9 @@ class SphinxBinding(Binding):
                         it["annotation"] = None
                     if kind == "parameters":
                         it["value"] = dflt.get(i) if el["dflt"] == "sig" else None
+                    # not compared: what the signature holds and where the written type stands (they classify a difference)
+                    it["sig_annotation"] = ann.get(i)
+                    it["type_pos"] = "inline" if el["ann"] == "inline" else "none" if el["tf"] < 0 else "type-before" if el["tf"] < i else "type-after"
                     items.append(it)
                 rec["items"] = items
             out.append(rec)
